@@ -16,6 +16,7 @@
                  | `(`  |  `)`                 parentheses; every run is balanced as a whole
                  | `:`                         only where the parenthesis depth is not 0
                  | `::`..  then a plain char   two or more colons, only at depth 0 (`a::before`)
+                 | `/`                         followed in its run by a lexeme not starting with `*`
 
    `render` writes the text, `tree` lays the sheet out as the offset tree of CssTree.v (the
    ranges a reader of the statement expects: a declaration's name and value are its runs,
@@ -26,7 +27,7 @@
    What the grammar deliberately leaves out (the scanner treats it differently, see the listed
    finding for C10): `;`, `{`, `}` inside parentheses outside strings and comments -- these
    characters are no lexeme of a run, so a parenthesised expression of this grammar is free of
-   them; a `/` outside comments and strings; a single `:` at depth 0 inside a value; a declaration
+   them; a `/` at the end of a run or in front of `*`; a single `:` at depth 0 inside a value; a declaration
    whose `;` is missing; an empty name, value or selector.
 
    Definitions only. *)
@@ -82,6 +83,7 @@ Inductive lex :=
 | LClose
 | LColon
 | LPseudo (k : nat) (c : char)      (* k+2 colons, then the plain character c *)
+| LSlash                            (* a `/` that does not open a comment *)
 | LGap (g : glex).
 
 Definition is_tok (l : lex) : bool := match l with LGap _ => false | _ => true end.
@@ -94,6 +96,7 @@ Definition render_lex (l : lex) : str :=
   | LClose => [c_rparen]
   | LColon => [c_colon]
   | LPseudo k c => c_colon :: repeat c_colon (S k) ++ [c]
+  | LSlash => [c_slash]
   | LGap g => render_glex g
   end.
 Definition render_lexs (l : list lex) : str := flat_map render_lex l.
@@ -103,7 +106,7 @@ Definition lex_ok (d : Z) (l : lex) : bool :=
   match l with
   | LCh c => plain c
   | LStr q body => is_quote q && forallb (sbit_ok q) body
-  | LOpen | LClose => true
+  | LOpen | LClose | LSlash => true
   | LColon => negb (d =? 0)
   | LPseudo _ c => (d =? 0) && plain c
   | LGap g => glex_ok g
@@ -111,10 +114,20 @@ Definition lex_ok (d : Z) (l : lex) : bool :=
 Definition lex_d (d : Z) (l : lex) : Z :=
   match l with LOpen => d + 1 | LClose => d - 1 | _ => d end.
 
+(* a `/` token is followed, inside its run, by a lexeme that does not begin with `*` *)
+Definition next_ok (x : lex) (r : list lex) : bool :=
+  match x with
+  | LSlash => match r with
+              | [] => false
+              | LCh c :: _ => negb (c =? c_star)%N
+              | _ :: _ => true
+              end
+  | _ => true
+  end.
 Fixpoint lexs_ok (d : Z) (l : list lex) : bool :=
   match l with
   | [] => true
-  | x :: r => lex_ok d x && lexs_ok (lex_d d x) r
+  | x :: r => lex_ok d x && next_ok x r && lexs_ok (lex_d d x) r
   end.
 Fixpoint lexs_d (d : Z) (l : list lex) : Z :=
   match l with
